@@ -110,6 +110,10 @@ def run(chk, ctx) -> None:
     chk.floor('C07.graph', 10)
     from .cover import handover_last
     handover_last(chk, ctx, 'C07.handover_once')
+    # "with all-in run-outs dealing the remaining streets": when a betting round ends the hand is all-in exactly under the stated conditions
+    from .cover import all_in_rule
+    from .helpers import Refile as _Rf
+    all_in_rule(_Rf(chk, {'C03.all_in': 'C07.transitions', 'C03.actor': 'C07.transitions'}, only=lambda r, c: c == 'State._end_betting'), ctx)
     # a voluntary show is legal after the last street is closed (pots being pushed or pulled, a fold-out): the showdown step then only
     # logs it - ending the showdown a second time, or running its automation, is for the showdown phase proper
     us = ms['_update_showdown']
